@@ -1,1 +1,103 @@
+pub mod blake;
 pub mod chacha;
+pub mod groestl;
+pub mod jh;
+pub mod skein;
+
+/// blobby reader (format of the KAT files in the repository; they are read as data only)
+pub fn read_blb(path: &str) -> Result<Vec<Vec<u8>>, String> {
+    let data = std::fs::read(path).map_err(|e| format!("{}: {}", path, e))?;
+    if data.len() < 7 || &data[..6] != b"blobby" {
+        return Err(format!("{}: not a blobby file", path));
+    }
+    let n = match data[6] {
+        b'1' => 1,
+        b'2' => 2,
+        b'4' => 4,
+        b'8' => 8,
+        _ => return Err(format!("{}: bad index size", path)),
+    };
+    let mut out = Vec::new();
+    let mut p = 7;
+    while p < data.len() {
+        let mut len = 0usize;
+        for i in 0..n {
+            len |= (data[p + i] as usize) << (8 * i);
+        }
+        p += n;
+        out.push(data[p..p + len].to_vec());
+        p += len;
+    }
+    Ok(out)
+}
+
+fn kat_pairs(repo: &str, rel: &str) -> Result<Vec<(Vec<u8>, Vec<u8>)>, String> {
+    let items = read_blb(&format!("{}/{}", repo, rel))?;
+    Ok(items.chunks(2).filter(|c| c.len() == 2).map(|c| (c[0].clone(), c[1].clone())).collect())
+}
+
+/// Validate every reference hash against the published known-answer tests. Err = the oracle is wrong.
+pub fn selftest_hashes(repo: &str) -> Result<u32, String> {
+    let mut n = 0u32;
+    for bits in [224usize, 256, 384, 512] {
+        for (m, d) in kat_pairs(repo, &format!("hashes/blake/tests/data/blake{}.blb", bits))? {
+            if blake::Blake::digest(bits, &m) != d {
+                return Err(format!("BLAKE-{} reference fails KAT (message of {} bytes)", bits, m.len()));
+            }
+            n += 1;
+        }
+        for (m, d) in kat_pairs(repo, &format!("hashes/groestl/tests/data/groestl{}.blb", bits))? {
+            if groestl::Groestl::digest(bits, &m) != d {
+                return Err(format!("Groestl-{} reference fails KAT (message of {} bytes)", bits, m.len()));
+            }
+            n += 1;
+        }
+        for f in ["ShortMsgKAT", "LongMsgKAT"] {
+            for (i, (m, d)) in kat_pairs(repo, &format!("hashes/jh/tests/data/{}_{}.blb", f, bits))?.into_iter().enumerate() {
+                if f == "LongMsgKAT" && i % 8 != 0 {
+                    continue;
+                }
+                if jh::Jh::digest(bits, &m) != d {
+                    return Err(format!("JH-{} reference fails {} (message of {} bytes)", bits, f, m.len()));
+                }
+                n += 1;
+            }
+        }
+    }
+    for (sb, name) in [(32usize, "256"), (64, "512"), (128, "1024")] {
+        for ob in [32usize, 64] {
+            for (m, d) in kat_pairs(repo, &format!("hashes/skein/tests/data/skein{}_{}.blb", name, ob))? {
+                if skein::Skein::digest(sb, ob, &m) != d {
+                    return Err(format!("Skein-{}-{} reference fails KAT (message of {} bytes)", name, ob * 8, m.len()));
+                }
+                n += 1;
+            }
+        }
+    }
+    // BLAKE specification vectors (one zero byte; 72 / 144 zero bytes)
+    let hex = crate::kit::json::unhex;
+    if blake::Blake::digest(256, &[0u8]) != hex("0CE8D4EF4DD7CD8D62DFDED9D4EDB0A774AE6A41929A74DA23109E8F11139C87") {
+        return Err("BLAKE-256 spec vector (1 byte) fails".into());
+    }
+    if blake::Blake::digest(256, &[0u8; 72]) != hex("D419BAD32D504FB7D44D460C42C5593FE544FA4C135DEC31E21BD9ABDCC22D41") {
+        return Err("BLAKE-256 spec vector (72 bytes) fails".into());
+    }
+    if blake::Blake::digest(512, &[0u8]) != hex("97961587F6D970FABA6D2478045DE6D1FABD09B61AE50932054D52BC29D31BE4FF9102B9F69E2BBDB83BE13D4B9C06091E5FA0B48BD081B634058BE0EC49BEB3") {
+        return Err("BLAKE-512 spec vector (1 byte) fails".into());
+    }
+    if blake::Blake::digest(512, &[0u8; 144]) != hex("313717D608E9CF758DCB1EB0F0C3CF9FC150B2D500FB33F51C52AFC99D358A2F1374B8A38BBA7974E7F6EF79CAB16F22CE1E649D6E01AD9589C213045D545DDE") {
+        return Err("BLAKE-512 spec vector (144 bytes) fails".into());
+    }
+    n += 4;
+    // Threefish-256 zero vector from the Skein submission
+    let c = skein::threefish_encrypt(&[0u64; 4], 0, 0, &[0u64; 4]);
+    let mut cb = Vec::new();
+    for w in c {
+        cb.extend_from_slice(&w.to_le_bytes());
+    }
+    if cb != hex("84da2a1f8beaee947066ae3e3103f1ad536db1f4a1192495116b9f3ce6133fd8") {
+        return Err("Threefish-256 zero vector fails".into());
+    }
+    n += 1;
+    Ok(n)
+}
